@@ -349,9 +349,9 @@ static void plusRecord(const Prob& P, const std::string& tag) {
         vh::D("plus.sliding_single_interval");
     }
     vh::P("friction_opposes_sliding", "plus.oppose.sliding_single_interval", oppose, 1e-5);
-    // ImpulseSolver::solve documents its return value as "converged".  PLUS declares `bool converged=false` and never assigns
-    // it: judged on unconditional-only problems, which PLUS solves to 1e-15 in one Newton step.
-    if (onlyUncond && !P.part.empty()) vh::P("return_value_reports_convergence", "plus.solve.return_value_never_true", R.conv ? 0 : 1, 0);
+    // (PLUS's Boolean return value is never assigned - `bool converged=false; ... return converged;` - so it is false even
+    //  for exact solutions.  Outside the C44 statement: recorded in notes/C44.md under "observed outside the property".)
+    if (onlyUncond && !P.part.empty() && !R.conv) vh::D("plus.returns_false_for_exact_solution");
     ++g_plusJudged;
 }
 
